@@ -1,4 +1,5 @@
 import Mkdb.Proofs.TypedTables6
+import Mkdb.Proofs.SessionInv10
 import Mkdb.Proofs.BaseCase2
 /-!
 C18, typed tables, part 7: **histories, sessions, and computed examples**.
